@@ -1,12 +1,13 @@
 """C18 toolbox colour spaces (decided part): hue-sector dispatch covers its selector's whole range (no output left
 uninitialised), pass-through channels, luminance weights, access by colour name."""
-import os
+import os, re
 from fractions import Fraction as Fr
 from . import common as C
 from .ir.num import NumInterp, Unsupported
 from .pairs import Pair, run_pairs
 from .p06 import inner_fn, accept_inconclusive
 from .p09 import walk
+from .ast import rules as R
 
 LEVEL = "other"
 EXPLANATION = ("Static analysis of the toolbox converters: (S1) for every switch in the inlined hsv/hsl -> rgb converters the "
@@ -189,7 +190,9 @@ void inst(){
   cc<gray_alpha8_pixel_t,gray8_pixel_t>(); cc<cmyka8_pixel_t,rgba8_pixel_t>(); cc<gray8_pixel_t,rgba8_pixel_t>();
 }
 ''')
-    d = C.astdump(src, src[:-4] + ".json", ["^boost::gil::default_color_converter_impl::operator\\(\\)$"], extra=[])
+    d = C.astdump(src, src[:-4] + ".json", ["^boost::gil::default_color_converter_impl::"], extra=[])
+    transfer_pairs(rep, d["functions"])
+    d["functions"] = [f for f in d["functions"] if f["name"].endswith("operator()")]
     rep.rule("S5 toolbox converters reach channels only through get_color/static_for_each (no at_c, semantic_at_c, dynamic_at_c, operator[])")
     POS = ("boost::gil::at_c", "boost::gil::semantic_at_c", "boost::gil::dynamic_at_c")
     for f in d["functions"]:
@@ -211,6 +214,239 @@ void inst(){
             rep.ok("S5-by-name", key, "only named access")
     rep.floor("obligations:S5", 12)
     grey_thresholds(rep, d["functions"])
+
+
+# ---------------------------------------------------------------------------------------------
+# S8: piecewise transfer functions and their inverses
+class Form:
+    """m * (a*s + b)**e + c  in the one variable s"""
+    def __init__(self, m, a, b, e, c):
+        self.m, self.a, self.b, self.e, self.c = float(m), float(a), float(b), float(e), float(c)
+
+    def lin(self):
+        return self.e == 1.0
+
+    def norm(self):
+        if self.lin():
+            return Form(1, self.m * self.a, self.m * self.b + self.c, 1, 0)
+        if self.m > 0:
+            k = self.m ** (1.0 / self.e)
+            return Form(1, k * self.a, k * self.b, self.e, self.c)
+        return self
+
+    def at(self, s):
+        base = self.a * s + self.b
+        if base < 0 and self.e != int(self.e):
+            return float("nan")
+        return self.m * base ** self.e + self.c
+
+    def inverse(self):
+        # y = m*(a s + b)^e + c   =>   s = (1/a) * ((1/m) y - c/m)^(1/e) - b/a
+        return Form(1.0 / self.a, 1.0 / self.m, -self.c / self.m, 1.0 / self.e, -self.b / self.a).norm()
+
+    def close(self, o, tol=2e-4):
+        x, y = self.norm(), o.norm()
+        return all(abs(p - q) <= tol * max(1.0, abs(p), abs(q)) for p, q in zip((x.m, x.a, x.b, x.e, x.c), (y.m, y.a, y.b, y.e, y.c)))
+
+    def __repr__(self):
+        x = self.norm()
+        return "%.6g*s%+.6g" % (x.a, x.b) if x.lin() else "(%.6g*s%+.6g)^%.6g%+.6g" % (x.a, x.b, x.e, x.c)
+
+
+class NoForm(Exception):
+    pass
+
+
+def form_of(n, var):
+    """expression over the scalar `var` -> Form or float"""
+    n = R.strip(n)
+    k = n.get("k")
+    if k in ("Float", "Int"):
+        return float(n["v"])
+    if "const" in n and k not in ("DeclRef", "Member") and R.is_lit(str(n["const"])):
+        return float(n["const"])
+    if k == "DeclRef" and n.get("name") == var:
+        return Form(1, 1, 0, 1, 0)
+    if k == "Call":
+        nm = n["callee"]["name"]
+        if nm.endswith("::operator float") or nm.endswith("::operator double"):
+            return form_of(n.get("obj") or n["args"][0], var)
+        if nm.split("::")[-1] in ("powf", "pow") and len(n["args"]) == 2:
+            b, e = form_of(n["args"][0], var), form_of(n["args"][1], var)
+            if isinstance(e, Form):
+                raise NoForm("variable exponent")
+            if not isinstance(b, Form):
+                return b ** e
+            b = b.norm()
+            if not b.lin():
+                raise NoForm("power of a power")
+            return Form(1, b.a, b.b, e, 0)
+        if nm.split("::")[-1] in ("scoped_channel_value", "float32_t") and len(n["args"]) == 1:
+            return form_of(n["args"][0], var)
+        raise NoForm("call %s" % nm)
+    if k in ("Construct", "Temporary", "FunctionalCast") and len(n.get("args", [])) == 1:
+        return form_of(n["args"][0], var)
+    if k == "Unary" and n.get("op") == "-":
+        v = form_of(n["e"], var)
+        return -v if not isinstance(v, Form) else Form(-v.m, v.a, v.b, v.e, -v.c)
+    if k == "Binary" and n["op"] in ("+", "-", "*", "/"):
+        l, r = form_of(n["l"], var), form_of(n["r"], var)
+        op = n["op"]
+        lf, rf = isinstance(l, Form), isinstance(r, Form)
+        if not lf and not rf:
+            return {"+": l + r, "-": l - r, "*": l * r, "/": l / r if r else float("nan")}[op]
+        if lf and rf:
+            raise NoForm("two occurrences of the variable")
+        if op == "+":
+            f, c = (l, r) if lf else (r, l)
+            return Form(f.m, f.a, f.b, f.e, f.c + c)
+        if op == "-":
+            return Form(l.m, l.a, l.b, l.e, l.c - r) if lf else Form(-r.m, r.a, r.b, r.e, l - r.c)
+        if op == "*":
+            f, c = (l, r) if lf else (r, l)
+            return Form(f.m * c, f.a, f.b, f.e, f.c * c)
+        if lf:
+            return Form(l.m / r, l.a, l.b, l.e, l.c / r)
+        raise NoForm("division by the variable")
+    raise NoForm("node %s %s" % (k, R.key(n)[:60]))
+
+
+def piecewise_of(f):
+    """float32_t g(float32_t s) { if (s > T) return hi(s); else return lo(s); }  ->  (T, hi, lo)"""
+    if len(f["params"]) != 1:
+        raise NoForm("arity")
+    var = f["params"][0]["name"]
+    ifs = [x for x, _ in R.find(f["body"], lambda x: x.get("k") == "If")]
+    if len(ifs) != 1:
+        raise NoForm("%d conditionals" % len(ifs))
+    c = R.strip(ifs[0]["cond"])
+    if c.get("k") != "Binary" or c["op"] not in (">", ">=", "<", "<="):
+        raise NoForm("condition %s" % R.key(c))
+    l, r = form_of(c["l"], var), form_of(c["r"], var)
+    if not (isinstance(l, Form) and l.close(Form(1, 1, 0, 1, 0)) and not isinstance(r, Form)):
+        raise NoForm("condition %s" % R.key(c))
+
+    def ret(b):
+        rs = [x for x, _ in R.find(b, lambda x: x.get("k") == "Return")] if b else []
+        if len(rs) != 1:
+            raise NoForm("branch without a single return")
+        v = form_of(rs[0]["e"], var)
+        if not isinstance(v, Form):
+            raise NoForm("constant branch")
+        return v
+    th, el = ret(ifs[0].get("then")), ret(ifs[0].get("else"))
+    return (r, th, el) if c["op"] in (">", ">=") else (r, el, th)
+
+
+def pw_at(pw, s):
+    t, hi, lo = pw
+    return hi.at(s) if s > t else lo.at(s)
+
+
+def transfer_pairs(rep, fns):
+    rep.rule("S8 piecewise transfer functions (sRGB companding in rgb<->xyz, the cube root with linear toe in xyz<->lab): the reverse converter applies, to every channel, a "
+             "piecewise function whose upper and lower branches are the algebraic inverses of the forward branches (closed forms m*(a*s+b)^e+c extracted from the AST, "
+             "compared up to 2e-4) and whose breakpoint is the image of the forward breakpoint, at which the forward branches agree; a refutation carries a value v with G(F(v)) != v")
+    RGB, XYZ, LAB = "boost::gil::red_t", "boost::gil::xyz_color_space::x_t", "boost::gil::lab_color_space::luminance_t"
+
+    def cls_of(f):
+        m = re.match(r"boost::gil::default_color_converter_impl<boost::mp11::mp_list<([\w:]+),.*?>, boost::mp11::mp_list<([\w:]+),", f.get("cls", ""))
+        return (m.group(1), m.group(2)) if m else None
+    helpers, ops = {}, {}
+    for f in fns:
+        c = cls_of(f)
+        if c is None or "toolbox" not in f["file"]:
+            continue
+        if f["name"].endswith("operator()"):
+            ops[c] = f
+        elif len(f["params"]) == 1 and f.get("body") is not None:
+            helpers.setdefault(c, []).append(f)
+    PAIRS = [("sRGB companding", (XYZ, RGB), (RGB, XYZ), 1.0), ("lab cube root", (XYZ, LAB), (LAB, XYZ), 1.0)]
+    for title, fwd, rev, top in PAIRS:
+        rep.count("obligations:S8")
+        key = "S8:%s" % title
+        try:
+            if fwd not in ops or rev not in ops:
+                raise NoForm("converter not instantiated")
+            where = "%s:%s" % (C.repo_rel(ops[rev]["file"]), ops[rev]["line"])
+            def pws(hs):
+                out = []
+                for h in hs:
+                    try:
+                        out.append((h, piecewise_of(h)))
+                    except NoForm:
+                        pass        # other one-argument helpers (the gamut clamp)
+                return out
+            F = pws(helpers.get(fwd, []))
+            if len(F) != 1:
+                raise NoForm("%d piecewise helpers in the forward converter" % len(F))
+            fh, F = F[0]
+            tF, Fhi, Flo = F
+            det = {"forward": {"breakpoint": tF, "above": repr(Fhi), "below": repr(Flo), "function": fh["name"].split("::")[-1]}}
+            # uses: the forward helper on every channel
+            nF = len([1 for c, _ in R.calls_in(ops[fwd]["body"], lambda n: n == fh["name"])])
+            G = pws(helpers.get(rev, []))
+            if G:
+                if len(G) != 1:
+                    raise NoForm("%d piecewise helpers in the reverse converter" % len(G))
+                gh, Gp = G[0]
+                nG = len([1 for c, _ in R.calls_in(ops[rev]["body"], lambda n: n == gh["name"])])
+                bare = [R.key(c)[:50] for c, _ in R.calls_in(ops[rev]["body"], lambda n: n.split("::")[-1] in ("powf", "pow", "cbrtf", "cbrt"))]
+            else:
+                # no helper: the reverse converter applies bare powers
+                pws = [c for c, _ in R.calls_in(ops[rev]["body"], lambda n: n.split("::")[-1] in ("powf", "pow"))]
+                es = set()
+                for c in pws:
+                    e = form_of(c["args"][1], "?")
+                    es.add(e if not isinstance(e, Form) else None)
+                if len(es) != 1 or None in es:
+                    raise NoForm("reverse converter without helper and without a uniform power")
+                e = es.pop()
+                one = Form(1, 1, 0, e, 0)
+                Gp, nG, bare, gh = (float("-inf"), one, one), len(pws), [], None
+            tG, Ghi, Glo = Gp
+            det["reverse"] = {"breakpoint": tG, "above": repr(Ghi), "below": repr(Glo), "function": gh["name"].split("::")[-1] if gh else "(inline power, no branch)"}
+            det["applications"] = {"forward": nF, "reverse": nG, "bare powers in the reverse converter": bare}
+            prob = []
+            if nF != 3 or nG != 3 or bare:
+                prob.append("the transfer function is not applied exactly once to each of the three channels")
+            if not Ghi.close(Fhi.inverse()):
+                prob.append("upper branch %r is not the inverse %r of the forward upper branch" % (Ghi, Fhi.inverse()))
+            if not Glo.close(Flo.inverse()):
+                prob.append("lower branch %r is not the inverse %r of the forward lower branch" % (Glo, Flo.inverse()))
+            yhi, ylo = Fhi.at(tF), Flo.at(tF)
+            if abs(yhi - ylo) > 2e-4:
+                prob.append("forward branches disagree at the breakpoint: %.6g vs %.6g" % (yhi, ylo))
+            if gh is not None and (abs(tG - yhi) > 2e-4 or abs(tG - ylo) > 2e-4):
+                prob.append("reverse breakpoint %.6g is not the image %.6g of the forward breakpoint %.6g" % (tG, ylo, tF))
+            if not prob:
+                rep.ok("S8-transfer-pair", key, det)
+                continue
+            # witness: a value whose round trip through the closed forms misses by more than the tolerance
+            wit = None
+            cand = [0.0, tF / 2, tF, tF * 1.0001, tF * 2] + [i / 255.0 * top for i in range(256)]
+            if gh is not None:
+                for y in (tG, (tG + ylo) / 2, ylo):
+                    for inv in (Fhi.inverse(), Flo.inverse()):
+                        v = inv.at(y)
+                        if v == v and 0 <= v <= top:
+                            cand += [v, v * 0.999, v * 1.001]
+            worst = 0.0
+            for v in cand:
+                w = pw_at(Gp, pw_at(F, v))
+                if w != w:
+                    continue
+                if abs(w - v) > max(worst, 2e-4):
+                    worst, wit = abs(w - v), {"v": v, "F(v)": pw_at(F, v), "G(F(v))": w}
+            det["problems"] = prob
+            if wit:
+                det["witness"] = wit
+                rep.violation("S8-transfer-pair", key, where, det)
+            else:
+                rep.incon("S8-transfer-pair", key, det)
+        except NoForm as e:
+            rep.incon("S8-transfer-pair", key, "unrecognised shape: %s" % e)
+    rep.floor("obligations:S8", 2)
 
 
 def grey_thresholds(rep, fns):
